@@ -877,3 +877,389 @@ Proof.
     apply firstn_body. rewrite skipn_length. lia. }
   rewrite E1, E2, E3 in *. rewrite <- app_assoc. repeat split; assumption.
 Qed.
+
+(* ---------- ~ and r ---------- *)
+Lemma case_chr_nl op c : b0 c <> 10%N -> b0 (case_chr op c) <> 10%N.
+Proof.
+  destruct c as [|x r]; cbn [case_chr b0 hd0]; [auto|]. intro H.
+  destruct (N.leb_spec x 127); cbn [b0 hd0]; [|exact H].
+  unfold c_tolower, c_toupper, c_islower, c_isupper.
+  destruct op; repeat match goal with |- context [if ?c then _ else _] => destruct c eqn:? end; lia.
+Qed.
+Lemma nonl_map_case op x : Forall (fun c : chr => b0 c <> 10%N) x -> Forall (fun c : chr => b0 c <> 10%N) (map (case_chr op) x).
+Proof. induction 1; cbn [map]; constructor; [apply case_chr_nl; assumption|assumption]. Qed.
+Lemma body_wf (body : list chr) : Forall (fun c : chr => b0 c <> 10%N) body -> line_wf (body ++ [nlc]).
+Proof. intro H. exists body. split; [reflexivity|exact H]. Qed.
+Lemma wf_body (body : list chr) : line_wf (body ++ [nlc]) -> Forall (fun c : chr => b0 c <> 10%N) body.
+Proof. intros (b2 & E & H). apply app_inj_tail in E. destruct E as [-> _]. exact H. Qed.
+
+Lemma refines_tilde rows e cnt e1 body :
+  let b := s_buf e in let s := s_vs e in
+  buf_wf b -> cursor_ok b (v_row s) (v_off s) -> getl b (v_row s) = Some (body ++ [nlc]) -> 0 <= cnt ->
+  exec1 rows (c_tilde cnt) e = Some e1 ->
+  let z := Z.min (v_off s + Z.max 1 cnt) (Z.of_nat (length body)) in
+  let nb := ref_tilde body (v_off s) z in
+  s_buf e1 = set_row b (v_row s) [nb ++ [nlc]] 1 /\ s_regs e1 = s_regs e /\
+  v_row (s_vs e1) = v_row s /\ v_off (s_vs e1) = ren_noeol (Some (nb ++ [nlc])) z.
+Proof.
+  intros b s HW Hc El Hn X.
+  set (l := body ++ [nlc]) in *. pose proof (getl_wf _ _ _ HW El) as Wl.
+  assert (Hs : slen l = Z.of_nat (length body) + 1) by (unfold l, slen; rewrite app_length; cbn [length]; lia).
+  assert (Hok : off_ok l (v_off s)) by (unfold cursor_ok in Hc; rewrite El in Hc; exact Hc). destruct Hok as [H0 H1].
+  pose proof (line_target rows b s cnt Lx l HW Hc El Hn) as T. cbv zeta in T.
+  set (o2 := Z.min (v_off s + Z.max 1 cnt) (slen l - 1)) in T.
+  assert (Ho2 : v_off s <= o2 <= slen l - 1) by (unfold o2; lia).
+  assert (RN : ren_noeol (getl b (v_row s)) (v_off s) = v_off s) by (rewrite El; apply ren_noeol_id; [exact Wl|split; assumption]).
+  assert (Hoo : off_ok l (Z.min (ren_noeol (getl b (v_row s)) (v_off s)) o2)).
+  { rewrite RN. unfold off_ok. split; [lia|]. destruct H1 as [H1|[H1 H1']]; [left; lia|right; lia]. }
+  destruct (vc_region_same_row b Kspace (v_row s) (ren_noeol (getl b (v_row s)) (v_off s)) o2 l HW El ltac:(lia) Hoo) as (G1 & G2 & G3 & G4 & G5).
+  cbn [incl_key andb] in G5. rewrite RN in *.
+  replace (Z.min (v_off s) o2) with (v_off s) in G4 by lia. replace (Z.max (v_off s) o2) with o2 in G5 by lia.
+  cbv zeta. replace (Z.min (v_off s + Z.max 1 cnt) (Z.of_nat (length body))) with o2 by (unfold o2; lia).
+  unfold c_tilde, exec1, exec_op in X. fold b s in X. rewrite RN, T in X.
+  change (v_row (vs_mot s (v_cl s) (v_cc s) (v_pcol s))) with (v_row s) in X.
+  set (g := vc_region b Kspace (v_row s) (v_off s) (v_row s) o2) in *.
+  unfold vi_case, region_text in X. rewrite G1, G2, G3, G4, G5 in X. unfold lbuf_region in X. rewrite El, Z.eqb_refl in X. cbn [optl] in X.
+  assert (E1 : sub_l l 0 (v_off s) = firstn (Z.to_nat (v_off s)) body) by (rewrite sub_l_firstn by lia; unfold l; apply firstn_body; lia).
+  assert (E2 : sub_l l o2 (-1) = skipn (Z.to_nat o2) body ++ [nlc]) by (rewrite sub_l_skipn by lia; unfold l; apply skipn_body; lia).
+  assert (E3 : sub_l l (v_off s) o2 = firstn (Z.to_nat (o2 - v_off s)) (skipn (Z.to_nat (v_off s)) body)).
+  { rewrite sub_l_mid by lia. unfold l. rewrite skipn_body by lia. apply firstn_body. rewrite skipn_length. lia. }
+  rewrite E1, E2, E3 in X.
+  set (nb := ref_tilde body (v_off s) o2).
+  assert (EN : firstn (Z.to_nat (v_off s)) body ++ map (case_chr Otilde) (firstn (Z.to_nat (o2 - v_off s)) (skipn (Z.to_nat (v_off s)) body)) ++
+               skipn (Z.to_nat o2) body ++ [nlc] = nb ++ [nlc]) by (unfold nb, ref_tilde; rewrite <- !app_assoc; reflexivity).
+  rewrite EN in X.
+  assert (Wn : line_wf (nb ++ [nlc])).
+  { apply body_wf. pose proof (wf_body body Wl) as Hb. unfold nb, ref_tilde. apply Forall_app. split; [apply Forall_firstn', Hb|].
+    apply Forall_app. split; [|apply Forall_skipn', Hb]. apply nonl_map_case, Forall_firstn', Forall_skipn', Hb. }
+  assert (Hr : 0 <= v_row s < blen b) by (apply getl_some in El; lia).
+  replace (v_row s + 1) with (v_row s + Z.of_nat 1) in X by lia.
+  rewrite lbuf_edit_some in X by (cbn; lia). rewrite (split_text_line _ Wn) in X. change (Z.of_nat 1) with 1 in X.
+  match type of X with context [finish rows ?bb _ _ _] => remember bb as b' eqn:Eb' end.
+  assert (Hb' : blen b' = blen b).
+  { rewrite Eb'. unfold set_row, blen in *. rewrite !app_length, firstn_length, skipn_length. cbn [length]. lia. }
+  assert (G : getl b' (v_row s) = Some (nb ++ [nlc])).
+  { rewrite Eb'. unfold getl, set_row. destruct (Z.ltb_spec (v_row s) 0); [lia|]. unfold blen in Hr.
+    rewrite nth_error_app2 by (rewrite firstn_length; lia). rewrite firstn_length, Nat.min_l by lia. rewrite Nat.sub_diag. reflexivity. }
+  inversion X; subst e1. clear X.
+  set (st := vs_pos _ _ _).
+  assert (Hrow : 0 <= v_row st < blen b') by (unfold st; cbn [vs_pos v_row]; lia).
+  rewrite finish_buf, finish_regs, finish_row, finish_off by exact Hrow. unfold st. cbn [vs_pos v_row v_off]. rewrite G.
+  repeat split; try reflexivity. exact Eb'.
+Qed.
+
+
+Lemma repeat_app_single {A} (c : A) n : repeat_app n [c] = repeat c n.
+Proof. induction n; cbn [repeat_app repeat app]; [reflexivity|rewrite IHn; reflexivity]. Qed.
+Lemma forallb_nonl (x : list chr) : Forall (fun c : chr => b0 c <> 10%N) x -> forallb (fun c => negb (is_nlb c)) x = true.
+Proof.
+  induction 1 as [|c x Hc _ IH]; cbn [forallb]; [reflexivity|]. rewrite IH, andb_true_r. unfold is_nlb.
+  destruct (N.eqb_spec (b0 c) 10); [contradiction|reflexivity].
+Qed.
+
+Lemma refines_replace rows e cnt cs e1 body :
+  let b := s_buf e in let s := s_vs e in
+  buf_wf b -> cursor_ok b (v_row s) (v_off s) -> getl b (v_row s) = Some (body ++ [nlc]) -> 0 <= cnt -> b0 cs <> 10%N ->
+  exec1 rows (CReplace cnt cs) e = Some e1 ->
+  let n := Z.max 1 cnt in let o := v_off s in
+  s_regs e1 = s_regs e /\ v_row (s_vs e1) = v_row s /\
+  if o + n <=? Z.of_nat (length body)
+  then s_buf e1 = set_row b (v_row s) [ref_replace body o n cs ++ [nlc]] 1 /\ v_off (s_vs e1) = o + n - 1
+  else s_buf e1 = b /\ v_off (s_vs e1) = o.
+Proof.
+  intros b s HW Hc El Hn Hcs X n o.
+  set (l := body ++ [nlc]) in *. pose proof (getl_wf _ _ _ HW El) as Wl. pose proof (wf_body body Wl) as Hb.
+  assert (Hs : slen l = Z.of_nat (length body) + 1) by (unfold l, slen; rewrite app_length; cbn [length]; lia).
+  assert (Hok : off_ok l o) by (unfold cursor_ok in Hc; rewrite El in Hc; exact Hc).
+  assert (RN : ren_noeol (getl b (v_row s)) o = o) by (rewrite El; apply ren_noeol_id; assumption).
+  destruct Hok as [H0 H1].
+  assert (Hr : 0 <= v_row s < blen b) by (apply getl_some in El; lia).
+  cbn [exec1] in X. unfold exec_replace in X. fold b s in X.
+  assert (RN' : ren_noeol (@Some line l) (v_off s) = v_off s) by (apply ren_noeol_id; [exact Wl|split; assumption]).
+  rewrite El in X. cbv zeta in X. rewrite RN' in X. fold o n in X.
+  destruct (Z.leb_spec (o + n) (Z.of_nat (length body))) as [Hfit|Hfit].
+  - assert (Esp : firstn (Z.to_nat n) (skipn (Z.to_nat o) l) = firstn (Z.to_nat n) (skipn (Z.to_nat o) body)).
+    { unfold l. rewrite skipn_body by lia. apply firstn_body. rewrite skipn_length. lia. }
+    rewrite Esp in X. rewrite forallb_nonl in X by (apply Forall_firstn', Forall_skipn', Hb). cbn [negb orb] in X.
+    assert (Lsp : slen (firstn (Z.to_nat n) (skipn (Z.to_nat o) body)) = n) by (unfold slen; rewrite firstn_length, skipn_length; lia).
+    rewrite Lsp in X. destruct (Z.ltb_spec n n); [lia|].
+    assert (E1 : sub_l l 0 o = firstn (Z.to_nat o) body) by (rewrite sub_l_firstn by lia; unfold l; apply firstn_body; lia).
+    assert (E2 : sub_l l (o + n) (-1) = skipn (Z.to_nat (o + n)) body ++ [nlc]) by (rewrite sub_l_skipn by lia; unfold l; apply skipn_body; lia).
+    rewrite E1, E2, repeat_app_single in X.
+    assert (EN : firstn (Z.to_nat o) body ++ repeat cs (Z.to_nat n) ++ skipn (Z.to_nat (o + n)) body ++ [nlc] = ref_replace body o n cs ++ [nlc])
+      by (unfold ref_replace; rewrite <- !app_assoc; reflexivity).
+    rewrite EN in X.
+    assert (Wn : line_wf (ref_replace body o n cs ++ [nlc])).
+    { apply body_wf. unfold ref_replace. apply Forall_app. split; [apply Forall_firstn', Hb|]. apply Forall_app. split; [|apply Forall_skipn', Hb].
+      apply Forall_forall. intros c Hin. apply repeat_spec in Hin. subst c. exact Hcs. }
+    replace (v_row s + 1) with (v_row s + Z.of_nat 1) in X by lia.
+    rewrite lbuf_edit_some in X by (cbn; lia). rewrite (split_text_line _ Wn) in X. change (Z.of_nat 1) with 1 in X.
+    unfold is_nlb in X. destruct (N.eqb_spec (b0 cs) 10); [contradiction|].
+    match type of X with context [finish rows ?bb _ _ _] => remember bb as b' eqn:Eb' end.
+    assert (Hb' : blen b' = blen b).
+    { rewrite Eb'. unfold set_row, blen in *. rewrite !app_length, firstn_length, skipn_length. cbn [length]. lia. }
+    assert (G : getl b' (v_row s) = Some (ref_replace body o n cs ++ [nlc])).
+    { rewrite Eb'. unfold getl, set_row. destruct (Z.ltb_spec (v_row s) 0); [lia|]. unfold blen in Hr.
+      rewrite nth_error_app2 by (rewrite firstn_length; lia). rewrite firstn_length, Nat.min_l by lia. rewrite Nat.sub_diag. reflexivity. }
+    inversion X; subst e1. clear X. set (st := vs_pos _ _ _).
+    assert (Hrow : 0 <= v_row st < blen b') by (unfold st; cbn [vs_pos v_row]; lia).
+    rewrite finish_buf, finish_regs, finish_row, finish_off by exact Hrow. unfold st. cbn [vs_pos v_row v_off]. rewrite G.
+    repeat split; try reflexivity; [exact Eb'|]. apply ren_noeol_id; [exact Wn|].
+    unfold off_ok, slen. rewrite app_length. unfold ref_replace. rewrite !app_length, firstn_length, repeat_length, skipn_length. cbn [length]. lia.
+  - assert (Esp : firstn (Z.to_nat n) (skipn (Z.to_nat o) l) = skipn (Z.to_nat o) body ++ [nlc]).
+    { unfold l. rewrite skipn_body by lia. apply firstn_all2. rewrite app_length, skipn_length. cbn [length]. lia. }
+    rewrite Esp in X. rewrite forallb_app in X. cbn [forallb] in X. unfold is_nlb at 2 in X. cbn in X. rewrite andb_false_r in X. cbn [negb orb] in X.
+    inversion X; subst e1. clear X.
+    assert (Hrow : 0 <= v_row s < blen b) by exact Hr.
+    rewrite finish_buf, finish_regs, finish_row, finish_off by exact Hrow. fold o. rewrite RN. repeat split; reflexivity.
+Qed.
+
+(* ---------- p and P ---------- *)
+Lemma flat_valid_nonnil cs : line_valid cs -> cs <> [] -> flat cs <> [].
+Proof.
+  intros H Hn. destruct cs as [|c cs]; [contradiction|]. inversion H as [|? ? (k & Hk & Ec) _]; subst.
+  cbn. pose proof (encode_nonempty k Hk). destruct (encode k); [cbn in *; lia|discriminate].
+Qed.
+Lemma repeat_app_len {A} n (x : list A) : length (repeat_app n x) = (n * length x)%nat.
+Proof. induction n; cbn [repeat_app]; [reflexivity|]. rewrite app_length, IHn. lia. Qed.
+Lemma repeat_app_Forall {A} (P : A -> Prop) n x : Forall P x -> Forall P (repeat_app n x).
+Proof. intro H. induction n; cbn [repeat_app]; [constructor|apply Forall_app; split; assumption]. Qed.
+Lemma repeat_app_concat {A} n (ls : list (list A)) : repeat_app n (concat ls) = concat (repeat_app n ls).
+Proof. induction n; cbn [repeat_app]; [reflexivity|]. rewrite concat_app, IHn. reflexivity. Qed.
+
+Lemma refines_put_chars rows e y cnt after cs body :
+  let b := s_buf e in let s := s_vs e in
+  buf_wf b -> cursor_ok b (v_row s) (v_off s) -> getl b (v_row s) = Some (body ++ [nlc]) -> 0 <= cnt ->
+  reg_get (s_regs e) y = Some (flat cs, false) -> line_valid cs -> cs <> [] -> Forall (fun c : chr => b0 c <> 10%N) cs ->
+  let e1 := exec_put rows e y cnt after in
+  let n := Z.to_nat (Z.max 1 cnt) in
+  let off := ref_put_off body (v_off s) after in
+  s_buf e1 = set_row b (v_row s) [firstn (Z.to_nat off) body ++ repeat_app n cs ++ skipn (Z.to_nat off) body ++ [nlc]] 1 /\
+  s_regs e1 = s_regs e /\ v_row (s_vs e1) = v_row s /\ v_off (s_vs e1) = off + Z.of_nat (length cs) * Z.of_nat n - 1.
+Proof.
+  intros b s HW Hc El Hn Hreg Hv Hne Hnl e1 n off.
+  set (l := body ++ [nlc]) in *. pose proof (getl_wf _ _ _ HW El) as Wl. pose proof (wf_body body Wl) as Hb.
+  assert (Hs : slen l = Z.of_nat (length body) + 1) by (unfold l, slen; rewrite app_length; cbn [length]; lia).
+  assert (Hok : off_ok l (v_off s)) by (unfold cursor_ok in Hc; rewrite El in Hc; exact Hc).
+  assert (RN' : ren_noeol (@Some line l) (v_off s) = v_off s) by (apply ren_noeol_id; assumption).
+  destruct Hok as [H0 H1].
+  assert (Hr : 0 <= v_row s < blen b) by (apply getl_some in El; lia).
+  assert (Hoff : v_off s <= off <= Z.of_nat (length body) /\
+          off = v_off s + (if negb (is_nlb (chr_at l 0)) && after then 1 else 0)).
+  { unfold off, ref_put_off, l. destruct body as [|c0 body']; cbn [is_nil negb andb app chr_at].
+    - cbn. rewrite andb_false_r. cbn [length] in *. lia.
+    - inversion Hb; subst. unfold is_nlb. change (chr_at (c0 :: body' ++ [nlc]) 0) with c0.
+      destruct (N.eqb_spec (b0 c0) 10); [contradiction|]. cbn [negb andb]. cbn [length] in *. destruct after; cbn [andb]; lia. }
+  destruct Hoff as [Hoff Eoff].
+  unfold e1, exec_put. fold b s. rewrite Hreg.
+  destruct (flat cs) as [|x0 tl] eqn:Efl; [exfalso; eapply flat_valid_nonnil; eassumption|]. rewrite <- Efl.
+  rewrite chop_flat by exact Hv. destruct (Z.ltb_spec (v_row s) (blen b)); [|lia]. rewrite El. cbn [optl]. fold n.
+  rewrite RN', <- Eoff.
+  assert (E1 : sub_l l 0 off = firstn (Z.to_nat off) body) by (rewrite sub_l_firstn by lia; unfold l; apply firstn_body; lia).
+  assert (E2 : sub_l l off (-1) = skipn (Z.to_nat off) body ++ [nlc]) by (rewrite sub_l_skipn by lia; unfold l; apply skipn_body; lia).
+  rewrite E1, E2.
+  set (nb := firstn (Z.to_nat off) body ++ repeat_app n cs ++ skipn (Z.to_nat off) body).
+  assert (EN : firstn (Z.to_nat off) body ++ repeat_app n cs ++ skipn (Z.to_nat off) body ++ [nlc] = nb ++ [nlc])
+    by (unfold nb; rewrite <- !app_assoc; reflexivity).
+  rewrite EN.
+  assert (Wn : line_wf (nb ++ [nlc])).
+  { apply body_wf. unfold nb. apply Forall_app. split; [apply Forall_firstn', Hb|]. apply Forall_app. split; [|apply Forall_skipn', Hb].
+    apply repeat_app_Forall, Hnl. }
+  replace (v_row s + 1) with (v_row s + Z.of_nat 1) by lia.
+  rewrite lbuf_edit_some by (cbn; lia). rewrite (split_text_line _ Wn). change (Z.of_nat 1) with 1.
+  match goal with |- context [finish rows ?bb _ _ _] => remember bb as b' eqn:Eb' end.
+  assert (Hb' : blen b' = blen b).
+  { rewrite Eb'. unfold set_row, blen in *. rewrite !app_length, firstn_length, skipn_length. cbn [length]. lia. }
+  assert (G : getl b' (v_row s) = Some (nb ++ [nlc])).
+  { rewrite Eb'. unfold getl, set_row. destruct (Z.ltb_spec (v_row s) 0); [lia|]. unfold blen in Hr.
+    rewrite nth_error_app2 by (rewrite firstn_length; lia). rewrite firstn_length, Nat.min_l by lia. rewrite Nat.sub_diag. reflexivity. }
+  set (st := vs_pos _ _ _).
+  assert (Hrow : 0 <= v_row st < blen b') by (unfold st; cbn [vs_pos v_row]; lia).
+  rewrite finish_buf, finish_regs, finish_row, finish_off by exact Hrow. unfold st. cbn [vs_pos v_row v_off]. rewrite G.
+  assert (Hlen : (1 <= length cs)%nat) by (destruct cs; [contradiction|cbn; lia]).
+  assert (Hn1 : (1 <= n)%nat) by (unfold n; lia).
+  repeat split; try reflexivity; [exact Eb'|].
+  unfold slen. replace (Z.of_nat (length cs) * Z.of_nat (Z.to_nat (Z.max 1 cnt))) with (Z.of_nat (length cs) * Z.of_nat n) by reflexivity.
+  apply ren_noeol_id; [exact Wn|]. unfold off_ok, slen. rewrite app_length. unfold nb. rewrite !app_length, firstn_length, repeat_app_len, skipn_length.
+  cbn [length]. nia.
+Qed.
+
+Lemma refines_put_lines rows e y cnt after ls l0 :
+  let b := s_buf e in let s := s_vs e in
+  getl b (v_row s) = Some l0 ->
+  reg_get (s_regs e) y = Some (flat (concat ls), true) -> buf_wf ls -> buf_valid ls -> ls <> [] ->
+  let e1 := exec_put rows e y cnt after in
+  let n := Z.to_nat (Z.max 1 cnt) in
+  let r' := ref_put_row (v_row s) after in
+  s_buf e1 = firstn (Z.to_nat r') b ++ repeat_app n ls ++ skipn (Z.to_nat r') b /\
+  s_regs e1 = s_regs e /\ v_row (s_vs e1) = r' /\
+  v_off (s_vs e1) = ren_noeol (getl (s_buf e1) r') (lbuf_indents (s_buf e1) r').
+Proof.
+  intros b s El Hreg HWl HVl Hne e1 n r'.
+  assert (Hr : 0 <= v_row s < blen b) by (apply getl_some in El; lia).
+  unfold e1, exec_put. fold b s. rewrite Hreg.
+  destruct (flat (concat ls)) as [|x0 tl] eqn:Efl.
+  { exfalso. destruct ls as [|l1 ls']; [contradiction|]. inversion HWl; subst. cbn [concat] in Efl. eapply flat_wf_nonnil; eassumption. }
+  rewrite <- Efl. rewrite chop_flat by (apply concat_valid, HVl). fold n.
+  destruct (Z.eqb_spec (blen b) 0); [lia|].
+  replace (if after then v_row s + 1 else v_row s) with r' by reflexivity.
+  assert (Hr' : 0 <= r' <= blen b) by (unfold r', ref_put_row; destruct after; lia).
+  rewrite repeat_app_concat.
+  assert (HWn : buf_wf (repeat_app n ls)) by (apply repeat_app_Forall, HWl).
+  assert (EB : lbuf_edit b (Some (concat (repeat_app n ls))) r' r' = firstn (Z.to_nat r') b ++ repeat_app n ls ++ skipn (Z.to_nat r') b).
+  { unfold lbuf_edit. rewrite !Z.min_l by lia. rewrite Z.sub_diag, split_text_concat by exact HWn. unfold set_row.
+    rewrite Z.add_0_r. reflexivity. }
+  rewrite EB.
+  match goal with |- context [finish rows ?bb _ _ _] => remember bb as b' eqn:Eb' end.
+  assert (Hn1 : (1 <= n)%nat) by (unfold n; lia).
+  assert (Hb' : blen b + 1 <= blen b').
+  { rewrite Eb'. unfold blen in *. rewrite !app_length, firstn_length, skipn_length, repeat_app_len.
+    assert (1 <= length ls)%nat by (destruct ls; [contradiction|cbn; lia]). nia. }
+  set (st := vs_pos _ _ _).
+  assert (Hrow : 0 <= v_row st < blen b') by (unfold st; cbn [vs_pos v_row]; lia).
+  rewrite finish_buf, finish_regs, finish_row, finish_off by exact Hrow. unfold st. cbn [vs_pos v_row v_off].
+  repeat split; reflexivity.
+Qed.
+
+(* ---------- i and a with plain text ---------- *)
+Lemma plain_key_spec k : plain_key k = true ->
+  N.eqb (b0 k) 8 = false /\ N.eqb (b0 k) 127 = false /\ N.eqb (b0 k) 21 = false /\ N.eqb (b0 k) 23 = false /\
+  N.eqb (b0 k) 20 = false /\ N.eqb (b0 k) 4 = false /\ N.eqb (b0 k) 10 = false.
+Proof.
+  unfold plain_key. cbn [existsb]. intro H. apply negb_true_iff in H.
+  repeat (apply orb_false_iff in H; destruct H as [? H]). repeat split; assumption.
+Qed.
+Lemma led_line_plain pe typed : forallb plain_key typed = true -> forall sb ai,
+  fold_left (led_key pe) typed (sb, ai) = (sb ++ typed, ai).
+Proof.
+  induction typed as [|k t IH]; intros H sb ai; cbn [fold_left]; [rewrite app_nil_r; reflexivity|].
+  cbn [forallb] in H. apply andb_true_iff in H. destruct H as [Hk Ht].
+  destruct (plain_key_spec k Hk) as (A1 & A2 & A3 & A4 & A5 & A6 & _).
+  unfold led_key at 2. rewrite A1, A2, A3, A4, A5, A6. cbn [orb]. rewrite IH by exact Ht. rewrite <- app_assoc. reflexivity.
+Qed.
+Lemma split_typed_plain typed : forallb plain_key typed = true -> split_typed typed = [typed].
+Proof.
+  induction typed as [|k t IH]; intro H; cbn [split_typed]; [reflexivity|].
+  cbn [forallb] in H. apply andb_true_iff in H. destruct H as [Hk Ht].
+  destruct (plain_key_spec k Hk) as (_ & _ & _ & _ & _ & _ & A7). unfold is_nlb. rewrite A7, IH by exact Ht. reflexivity.
+Qed.
+Lemma plain_nonl typed : forallb plain_key typed = true -> Forall (fun c : chr => b0 c <> 10%N) typed.
+Proof.
+  induction typed as [|k t IH]; intro H; [constructor|]. cbn [forallb] in H. apply andb_true_iff in H. destruct H as [Hk Ht].
+  constructor; [|apply IH, Ht]. destruct (plain_key_spec k Hk) as (_ & _ & _ & _ & _ & _ & A7). apply N.eqb_neq, A7.
+Qed.
+Lemma span_blank_n_app n : forall x, fst (span_blank_n n x) ++ snd (span_blank_n n x) = x.
+Proof.
+  induction n as [|n IH]; intro x; cbn [span_blank_n]; [reflexivity|]. destruct x as [|c x]; [reflexivity|].
+  destruct (is_blankc c); [|reflexivity]. specialize (IH x). destruct (span_blank_n n x) as [a z]. cbn [fst snd app] in *. rewrite IH. reflexivity.
+Qed.
+Lemma span_blank_nonblank ln : existsb (fun c => negb (is_blankc c)) ln = true ->
+  Nat.eqb (length ln) (length (fst (span_blank ln))) = false.
+Proof.
+  assert (G : forall l, (length (fst (span_blank l)) <= length l)%nat /\
+              (existsb (fun c => negb (is_blankc c)) l = true -> (length (fst (span_blank l)) < length l)%nat)).
+  { induction l as [|c r [IH1 IH2]]; cbn [span_blank existsb]; [split; [cbn; lia|discriminate]|].
+    destruct (is_blankc c); cbn [negb orb].
+    - destruct (span_blank r) as [a z]. cbn [fst length] in *. split; [lia|]. intro H. specialize (IH2 H). lia.
+    - cbn [fst length]. split; [lia|]. intros _. lia. }
+  intro H. destruct (G ln) as [_ G2]. specialize (G2 H). apply Nat.eqb_neq. lia.
+Qed.
+Lemma led_input_plain pref post typed : forallb plain_key typed = true -> existsb (fun c => negb (is_blankc c)) typed = true ->
+  led_input pref post typed = (pref ++ typed ++ post, post).
+Proof.
+  intros Hp Hnb. unfold led_input. pose proof (span_blank_n_app ai_max pref) as Epref.
+  destruct (span_blank_n ai_max pref) as [ai pref']. cbn [fst snd] in Epref.
+  rewrite (split_typed_plain typed Hp). cbn [led_loop]. unfold led_line. rewrite (led_line_plain _ typed Hp). cbn [app is_nil].
+  rewrite (span_blank_nonblank typed Hnb). cbn [negb orb]. rewrite app_nil_r. rewrite <- Epref, <- !app_assoc. reflexivity.
+Qed.
+Lemma fold_count_nonl x : Forall (fun c : chr => b0 c <> 10%N) x -> forall n0,
+  fold_left (fun n c => if is_nlb c then 0 else n + 1) x n0 = n0 + slen x.
+Proof.
+  induction 1 as [|c x Hc _ IH]; intro n0; cbn [fold_left]; [unfold slen; cbn; lia|].
+  assert (E : is_nlb c = false) by (unfold is_nlb; apply N.eqb_neq; assumption). rewrite E, IH. unfold slen. cbn [length]. lia.
+Qed.
+Lemma count_nl_nonl x : Forall (fun c : chr => b0 c <> 10%N) x -> filter is_nlb x = [].
+Proof.
+  induction 1 as [|c x Hc _ IH]; cbn [filter]; [reflexivity|].
+  assert (E : is_nlb c = false) by (unfold is_nlb; apply N.eqb_neq; assumption). rewrite E. exact IH.
+Qed.
+Lemma vi_input_plain pref post typed : forallb plain_key typed = true -> existsb (fun c => negb (is_blankc c)) typed = true ->
+  Forall (fun c : chr => b0 c <> 10%N) pref -> line_wf post ->
+  vi_input pref post typed = (pref ++ typed ++ post, 1, Z.max 0 (slen pref + slen typed - 1), 0%nat).
+Proof.
+  intros Hp Hnb Hpref Hpost. unfold vi_input. rewrite (led_input_plain _ _ _ Hp Hnb). rewrite (split_typed_plain typed Hp).
+  pose proof (plain_nonl typed Hp) as Ht.
+  assert (A : count_nl (pref ++ typed ++ post) = 1).
+  { destruct Hpost as (pb & -> & Hpb). unfold count_nl.
+    rewrite !filter_app, (count_nl_nonl pref Hpref), (count_nl_nonl typed Ht), (count_nl_nonl pb Hpb). reflexivity. }
+  assert (B : charcount (pref ++ typed ++ post) post = slen pref + slen typed).
+  { unfold charcount. unfold slen at 1 2. rewrite !app_length.
+    destruct (Z.ltb_spec (Z.of_nat (length pref + (length typed + length post))) (Z.of_nat (length post))); [lia|].
+    replace (length pref + (length typed + length post) - length post)%nat with (length (pref ++ typed)) by (rewrite app_length; lia).
+    rewrite app_assoc, firstn_app_exact. rewrite fold_count_nonl by (apply Forall_app; split; assumption).
+    unfold slen. rewrite app_length. lia. }
+  rewrite A, B. reflexivity.
+Qed.
+
+Lemma refines_insert_plain rows e (append : bool) typed e1 body :
+  let b := s_buf e in let s := s_vs e in
+  buf_wf b -> cursor_ok b (v_row s) (v_off s) -> getl b (v_row s) = Some (body ++ [nlc]) ->
+  forallb plain_key typed = true -> existsb (fun c => negb (is_blankc c)) typed = true ->
+  exec1 rows (CIns (if append then Ia else Ii) typed) e = Some e1 ->
+  let off := ref_ins_off body (v_off s) append in
+  s_buf e1 = set_row b (v_row s) [firstn (Z.to_nat off) body ++ typed ++ skipn (Z.to_nat off) body ++ [nlc]] 1 /\
+  s_regs e1 = s_regs e /\ v_row (s_vs e1) = v_row s /\ v_off (s_vs e1) = off + slen typed - 1.
+Proof.
+  intros b s HW Hc El Hp Hnb X off.
+  set (l := body ++ [nlc]) in *. pose proof (getl_wf _ _ _ HW El) as Wl. pose proof (wf_body body Wl) as Hb.
+  assert (Hs : slen l = Z.of_nat (length body) + 1) by (unfold l, slen; rewrite app_length; cbn [length]; lia).
+  assert (Hok : off_ok l (v_off s)) by (unfold cursor_ok in Hc; rewrite El in Hc; exact Hc).
+  assert (RN' : ren_noeol (Some l) (v_off s) = v_off s) by (apply ren_noeol_id; assumption).
+  destruct Hok as [H0 H1].
+  assert (Hr : 0 <= v_row s < blen b) by (apply getl_some in El; lia).
+  assert (Hlt : (1 <= length typed)%nat) by (destruct typed; [discriminate|cbn; lia]).
+  pose proof (plain_nonl typed Hp) as Ht.
+  assert (Hoff : v_off s <= off <= Z.of_nat (length body)).
+  { unfold off, ref_ins_off. destruct body as [|c0 body']; cbn [is_nil negb andb length] in *; [rewrite andb_false_r; lia|destruct append; cbn [andb]; lia]. }
+  cbn [exec1] in X. unfold exec_insert in X. fold b s in X. rewrite El in X.
+  assert (EO : (match (if append then Ia else Ii) with II => lbuf_indents b (v_row s) | IA => lbuf_eol b (v_row s) | _ => v_off s end) = v_off s) by (destruct append; reflexivity).
+  rewrite EO, RN' in X.
+  assert (EF : (let off0 := match (if append then Ia else Ii) with Ii | II => v_off s | Ia | IA => v_off s + 1 | _ => 0 end in
+                match Some l with Some (c :: _) => if is_nlb c then 0 else off0 | _ => off0 end) = off).
+  { unfold off, ref_ins_off, l. destruct body as [|c0 body']; cbn [app is_nil negb andb].
+    - unfold is_nlb, nlc. cbn. rewrite andb_false_r. cbn [length] in *. lia.
+    - inversion Hb; subst. unfold is_nlb. destruct (N.eqb_spec (b0 c0) 10); [contradiction|]. destruct append; reflexivity. }
+  cbv zeta in EF. cbv zeta in X. rewrite EF in X.
+  assert (EI : is_oO (if append then Ia else Ii) = false) by (destruct append; reflexivity).
+  rewrite EI in X. cbn [negb andb optl] in X.
+  assert (E1 : sub_l l 0 off = firstn (Z.to_nat off) body) by (rewrite sub_l_firstn by lia; unfold l; apply firstn_body; lia).
+  assert (E2 : sub_l l off (-1) = skipn (Z.to_nat off) body ++ [nlc]) by (rewrite sub_l_skipn by lia; unfold l; apply skipn_body; lia).
+  rewrite E1, E2 in X.
+  rewrite vi_input_plain in X; try assumption; [|apply Forall_firstn', Hb|apply body_wf, Forall_skipn', Hb].
+  assert (EN : (match (if append then Ia else Ii) with Io => nextlines rows 1 (v_row s, v_top s) | _ => (v_row s, v_top s) end) = (v_row s, v_top s))
+    by (destruct append; reflexivity).
+  rewrite EN in X. cbn [nextlines] in X.
+  replace (v_row s - 1 + 1) with (v_row s) in X by lia.
+  set (nb := firstn (Z.to_nat off) body ++ typed ++ skipn (Z.to_nat off) body).
+  assert (ENB : firstn (Z.to_nat off) body ++ typed ++ skipn (Z.to_nat off) body ++ [nlc] = nb ++ [nlc])
+    by (unfold nb; rewrite <- !app_assoc; reflexivity).
+  rewrite ENB in *.
+  assert (Wn : line_wf (nb ++ [nlc])).
+  { apply body_wf. unfold nb. apply Forall_app. split; [apply Forall_firstn', Hb|]. apply Forall_app. split; [exact Ht|apply Forall_skipn', Hb]. }
+  replace (v_row s + 1) with (v_row s + Z.of_nat 1) in X by lia.
+  rewrite lbuf_edit_some in X by (cbn; lia). rewrite (split_text_line _ Wn) in X. change (Z.of_nat 1) with 1 in X.
+  match type of X with context [finish rows ?bb _ _ _] => remember bb as b' eqn:Eb' end.
+  assert (Hb' : blen b' = blen b).
+  { rewrite Eb'. unfold set_row, blen in *. rewrite !app_length, firstn_length, skipn_length. cbn [length]. lia. }
+  assert (G : getl b' (v_row s) = Some (nb ++ [nlc])).
+  { rewrite Eb'. unfold getl, set_row. destruct (Z.ltb_spec (v_row s) 0); [lia|]. unfold blen in Hr.
+    rewrite nth_error_app2 by (rewrite firstn_length; lia). rewrite firstn_length, Nat.min_l by lia. rewrite Nat.sub_diag. reflexivity. }
+  inversion X; subst e1. clear X. set (st := vs_top _ _).
+  assert (Hrow : 0 <= v_row st < blen b') by (unfold st; cbn [vs_top vs_pos v_row]; lia).
+  rewrite finish_buf, finish_regs, finish_row, finish_off by exact Hrow. unfold st. cbn [vs_top vs_pos v_row v_off]. rewrite G.
+  assert (Lf : slen (firstn (Z.to_nat off) body) = off) by (unfold slen; rewrite firstn_length; lia).
+  rewrite Lf. replace (Z.max 0 (off + slen typed - 1)) with (off + slen typed - 1) by (unfold slen; lia).
+  repeat split; try reflexivity; [exact Eb'|].
+  apply ren_noeol_id; [exact Wn|]. unfold off_ok, slen. rewrite app_length. unfold nb. rewrite !app_length, firstn_length, skipn_length.
+  cbn [length]. lia.
+Qed.
